@@ -350,7 +350,14 @@ func checkFloorCheckShapeAt(p *Prog, r *Roles, ck *compactKeyRole, res *Result, 
 	refuses := false
 	for _, b := range f.Blocks {
 		ret, ok := b.Instrs[len(b.Instrs)-1].(*ssa.Return)
-		if !ok || (compactParam != nil && dominatedByParam(b, compactParam, true)) || !get.Block().Dominates(b) {
+		if !ok || (compactParam != nil && dominatedByParam(b, compactParam, true)) {
+			continue
+		}
+		if !get.Block().Dominates(b) {
+			// a return on the read path that does not come after the read of the stored floor
+			if isNilConst(resolve(ret.Results[len(ret.Results)-1])) && (compactParam == nil || dominatedByParam(b, compactParam, false) || !dominatedByParam(get.Block(), compactParam, false)) {
+				res.bad("C08-R4", fmt.Sprintf("%s: return #%d on the read path", funcName(f), b.Index), p.pos(ret.Pos()), "the floor check answers 'not compacted' without having read the stored floor (a remembered or derived value instead): a compaction accepted by another node, or an older request that lowered the remembered value, is not seen and reads below the floor are served")
+			}
 			continue
 		}
 		facts := dominatingFacts(b)
